@@ -49,6 +49,23 @@ Merge(v, u) ==
        THEN IF k \in DOMAIN v THEN MergeEntry(v[k], u[k]) ELSE u[k]
        ELSE v[k]]
 
+\* ---- merge on deeper dictionaries, as path maps: a value is a function from a
+\* prefix-free set of key paths to integers (its leaves).  Merging u into v keeps
+\* the leaves of v that u does not touch: u's leaf at or above a leaf of v
+\* replaces it, and so does u's dictionary where v has a leaf.
+DeepU == {<<"a">>, <<"a", "c">>, <<"a", "c", "e">>, <<"a", "c", "f">>, <<"a", "d">>,
+          <<"b">>, <<"b", "c">>}
+IsPre(p, q) == Len(p) <= Len(q) /\ SubSeq(q, 1, Len(p)) = p
+PrefixFree(S) == \A p, q \in S : p # q => ~IsPre(p, q)
+DeepShapes == {S \in SUBSET DeepU : S # {} /\ PrefixFree(S)}
+DeepOf(S, n) == [p \in S |-> n]
+DeepMerge(v, u) ==
+  [p \in {x \in DOMAIN v : \A q \in DOMAIN u : ~IsPre(q, x) /\ ~IsPre(x, q)} \cup DOMAIN u |->
+     IF p \in DOMAIN u THEN u[p] ELSE v[p]]
+DeepRows(f) == {<<p, f[p]>> : p \in DOMAIN f}
+\* second updates: the shapes that reach below the top level
+DeepSecond == {S \in DeepShapes : \E p \in S : Len(p) >= 2}
+
 \* ---- dict_value: current maps keys to inner dictionaries
 DKeys == {"a", "b", "c"}
 InnerD == {[x |-> 1], [x |-> 2, y |-> 5]}
@@ -89,6 +106,7 @@ Init ==
   \/ \E cur \in Currents : \E op \in DictOps(cur) :
         ValidOp(op) /\ c = [kind |-> "dict_value", cur |-> cur, op |-> op]
   \/ \E cs \in UnitCases : c = [kind |-> "units", cs |-> cs]
+  \/ \E sv \in DeepShapes, su \in DeepShapes : c = [kind |-> "deep", sv |-> sv, su |-> su]
 Next == UNCHANGED c
 
 LawAccumulateCommutes ==
@@ -110,6 +128,14 @@ LawMerge ==
     /\ Merge(c.v, <<>>) = c.v
     /\ \A k \in DOMAIN c.v \ DOMAIN c.u : Merge(c.v, c.u)[k] = c.v[k]
     /\ \A k \in DOMAIN c.u : (c.u[k].t = "i" => Merge(c.v, c.u)[k] = c.u[k])
+LawDeepMerge ==
+  c.kind = "deep" =>
+     LET v == DeepOf(c.sv, 1)  u == DeepOf(c.su, 2) IN
+       /\ \A p \in DOMAIN u : DeepMerge(v, u)[p] = 2
+       /\ PrefixFree(DOMAIN DeepMerge(v, u))
+       /\ DeepMerge(v, v) = v
+       /\ \A p \in DOMAIN v : (\A q \in DOMAIN u : ~IsPre(q, p) /\ ~IsPre(p, q)) =>
+              DeepMerge(v, u)[p] = 1
 LawUnitsKept ==
   c.kind = "units" => (c.cs.f = "set" => UnitResultBase(c.cs) = c.cs.u * Factor(c.cs.uunit))
 
@@ -138,5 +164,11 @@ Export ==
                                v \in DictVals, u \in DictVals}),
         dict_value |-> SetToSeq(UNION {{Expected([kind |-> "dict_value", cur |-> cur, op |-> op]) :
                                op \in {o \in DictOps(cur) : ValidOp(o)}} : cur \in Currents}),
-        units |-> SetToSeq({Expected([kind |-> "units", cs |-> cs]) : cs \in UnitCases})])
+        units |-> SetToSeq({Expected([kind |-> "units", cs |-> cs]) : cs \in UnitCases}),
+        deep |-> SetToSeq({[v |-> DeepRows(DeepOf(sv, 1)), u1 |-> DeepRows(DeepOf(s1, 2)),
+                            u2 |-> DeepRows(DeepOf(s2, 3)),
+                            out1 |-> DeepRows(DeepMerge(DeepOf(sv, 1), DeepOf(s1, 2))),
+                            out2 |-> DeepRows(DeepMerge(DeepMerge(DeepOf(sv, 1), DeepOf(s1, 2)),
+                                                        DeepOf(s2, 3)))] :
+                           sv \in DeepShapes, s1 \in DeepShapes, s2 \in DeepSecond})])
 =============================================================================
